@@ -1,1 +1,2 @@
 import TinodeVerif.Props.C05
+import TinodeVerif.Props.C04
